@@ -118,6 +118,22 @@ pub fn walk_adaptors<'a>(section: &'a [u8], mk: &dyn Fn() -> TypeLengthValues<'a
     }
     let fail = |what: &str, exp: String, obs: String| Err(Fail::new(what, shape_tlv(section), entry, exp, obs));
     let cap = section.len() / 3 + 4;
+    // size_hint never contradicts what is left; a clone taken half-way yields the same rest
+    let mut it = mk();
+    for i in 0..=n {
+        let (lo, hi) = it.size_hint();
+        let left = n - i;
+        if lo > left || hi.map_or(false, |h| h < left) {
+            return fail("size_hint", format!("bounds that contain the {} items left", left), format!("({}, {:?})", lo, hi));
+        }
+        if i == n / 2 {
+            let rest: Vec<_> = it.clone().take(cap).collect();
+            if rest.len() != left || rest.iter().enumerate().any(|(j, g)| !same_item(section, &want[i + j], Some(g))) {
+                return fail("clone-midway", format!("a clone taken after {} items yields the remaining {}", i, left), format!("{} items", rest.len()));
+            }
+        }
+        let _ = it.next();
+    }
     // nth(k), then the item after it
     let mut ks: Vec<usize> = vec![0, 1, 2, 3, n.saturating_sub(1), n, n + 1, n + 5];
     ks.sort();
@@ -166,22 +182,6 @@ pub fn walk_adaptors<'a>(section: &'a [u8], mk: &dyn Fn() -> TypeLengthValues<'a
     mk().for_each(|_| fe += 1);
     if f != n || v.len() != n || fe != n {
         return fail("fold-collect", format!("{} items through fold, collect and for_each", n), format!("fold {}, collect {}, for_each {}", f, v.len(), fe));
-    }
-    // size_hint never contradicts what is left; a clone taken half-way yields the same rest
-    let mut it = mk();
-    for i in 0..=n {
-        let (lo, hi) = it.size_hint();
-        let left = n - i;
-        if lo > left || hi.map_or(false, |h| h < left) {
-            return fail("size_hint", format!("bounds that contain the {} items left", left), format!("({}, {:?})", lo, hi));
-        }
-        if i == n / 2 {
-            let rest: Vec<_> = it.clone().take(cap).collect();
-            if rest.len() != left || rest.iter().enumerate().any(|(j, g)| !same_item(section, &want[i + j], Some(g))) {
-                return fail("clone-midway", format!("a clone taken after {} items yields the remaining {}", i, left), format!("{} items", rest.len()));
-            }
-        }
-        let _ = it.next();
     }
     Ok(())
 }
@@ -352,6 +352,9 @@ fn gen_slice(t: &mut Tape) -> Vec<u8> {
 const ALPHA: [u8; 6] = [0x00, 0x01, 0x02, 0x03, 0x04, 0xFF];
 
 pub fn run(r: &mut Runner) -> &'static str {
+    // where the walk demands items, a crash of the process (abort, stack overflow) or a stall is a failure of this
+    // property too: journal the cases so that the supervisor can find the culprit (see engine: triage)
+    r.journal = true;
     r.rule = "inputs: byte slices as TLV sections - ALL strings over {00,01,02,03,04,FF} up to a length bound, well-formed lists (value lengths 0,1,255..257,65535,random) with truncations \
               at and around every item boundary, random short and long sections - and the TLV sections of accepted headers; oracle: the textbook walk R-TLV item by item \
               (kind, value bytes, value POSITION in the borrowed slice, one error item of the right kind, then None three more times). \
